@@ -545,6 +545,10 @@ def ast_to_strings(ast: AST_TYPE, datapack: DataPack) -> tuple[str, str]:
         precommand = "\n".join(precommands)
 
     condition_string, precommands_ = merge_condition(conditions)
+    if precommand and precommands_:
+        # the commands that set the __logic__ flags and the commands a condition itself brings
+        # (String.isEqual, Object.isEqual) are two blocks of lines
+        precommand += "\n"
     precommand += "\n".join(precommands_)
     return condition_string, precommand
 
